@@ -57,6 +57,7 @@ def tV (s : String) : String := "v:" ++ s
 def tN (n : Nat) : String := "n:" ++ toString n
 def tX (bs : List UInt8) : String :=
   "x:" ++ String.ofList (bs.foldr (fun b acc => hexChar (b.toNat / 16) :: hexChar (b.toNat % 16) :: acc) [])
+def tI (i : Int) : String := "i:" ++ toString i
 def tL (xs : List Fq) : String := String.intercalate " " (("l:" ++ toString xs.length) :: xs.map tS)
 
 def join (ts : List String) : String := String.intercalate " " ts
